@@ -42,6 +42,7 @@ fn main() {
                         "snapx" => jsonc::gen_snap(seed, 1, 0, true, &sink),
                         "queue" => gens::gen_queue(seed, if thorough { 12_000 } else { 4_000 }, if thorough { 60 } else { 30 }, &sink),
                         "deep" => gens::gen_deep(seed, thorough, &sink),
+                        "seqx" => gens::gen_seqx(seed, thorough, &sink),
                         "seq0" => gens::gen_seq(seed, if thorough { 8_000 } else { 1_500 }, if thorough { 100 } else { 40 }, true, false, false, &sink),
                         "seqp" => gens::gen_seq(seed ^ 0x7070, if thorough { 8_000 } else { 1_500 }, if thorough { 100 } else { 40 }, true, false, true, &sink),
                         "seqr" => gens::gen_seq(seed, if thorough { 8_000 } else { 1_500 }, if thorough { 100 } else { 40 }, true, true, true, &sink),
